@@ -961,7 +961,7 @@ class Interp:
             else:
                 items = []
                 for v in vs:
-                    self.set_elem(st1, v)
+                    self.set_elem(st1, v, items)
                     if v not in items:
                         items.append(v)
                 yield st1, st1.alloc(SetE(items))
@@ -1057,13 +1057,25 @@ class Interp:
                     d[self.hashable(k)] = v
                 yield st2, st2.alloc(DictE(d))
 
-    def set_elem(self, st, x):
-        """element of a builtin set: sets find equal elements through __hash__ and __eq__; the model compares objects by
-        identity, which is only right for objects WITHOUT a user-defined __eq__"""
+    def set_elem(self, st, x, items=None):
+        """element of a builtin set: CPython treats x and an element y as the same iff they are identical, or their hashes
+        are equal and x == y.  The model keeps set elements apart by identity.  For objects with a user-defined __eq__ that
+        is the same answer exactly when x is identical to an element or `==` (the objects' own __eq__, run here) says False
+        for every other element - whatever the hashes are.  `items`: the elements x is looked up among; anything else
+        (an equal but distinct element: the hashes would decide; a forking / raising __eq__) is refused."""
         from . import keyed
 
-        if keyed._has_user_eq(self, st, x):
-            raise Unsupported("object with a user-defined __eq__ as element of a set")
+        if keyed._has_user_eq(self, st, x) or (items is not None and any(keyed._has_user_eq(self, st, y) for y in items)):
+            if items is None or isinstance(x, tuple) or any(isinstance(y, tuple) for y in items):
+                raise Unsupported("object with a user-defined __eq__ as element of a set")
+            for y in items:
+                if isinstance(x, Ref) and isinstance(y, Ref) and x.id == y.id:
+                    continue
+                outs = list(self.models.compare(self, st, "Eq", x, y))
+                if len(outs) == 1 and outs[0][0] is st and is_z3(outs[0][1]) and z3.is_bool(outs[0][1]) and not self.feasible(st, outs[0][1]):
+                    continue  # unequal on every input of this path
+                if len(outs) != 1 or outs[0][0] is not st or outs[0][1] is not False:
+                    raise Unsupported("set lookup among objects with a user-defined __eq__ that are (possibly) equal but not identical")
         return self.hashable(x)
 
     def hashable(self, k):
@@ -1671,7 +1683,7 @@ class Interp:
                 continue
             items = []
             for v in st1.get(r).items:
-                self.set_elem(st1, v)
+                self.set_elem(st1, v, items)
                 if v not in items:
                     items.append(v)
             yield st1, st1.alloc(SetE(items))
